@@ -6,7 +6,9 @@
 (* class, its flag, the potential class, the number of grid points with    *)
 (* r <= sigma of that pair and how many of them violate                    *)
 (* closure.value = -1 - GammaIn bitwise.  WHICH pairs have a hard core is  *)
-(* decided here, by HardCorePair of ClosureDefs.                           *)
+(* decided here, by HardCorePair of ClosureDefs.  The same events carry,   *)
+(* per pair, the number of points outside the core at which the output is  *)
+(* not the closure relation of ClosureDefs (C09, clause ClosureRelation).  *)
 (***************************************************************************)
 EXTENDS ClosureDefs, Json, IOUtils
 
@@ -22,7 +24,11 @@ TrCost ==
     /\ l' = l + 1
     /\ LET e == Log[l]
        IN  \/ e.judged = 0          \* trial vector outside the stated range (|gamma| beyond the underflow assumption): nothing claimed
-           \/ Clause("HardCoreValue", \A i \in 1 .. Len(e.pairs) : Hard(e.pairs[i]) => e.pairs[i].bad = 0)
+           \/ /\ Clause("HardCoreValue", \A i \in 1 .. Len(e.pairs) : Hard(e.pairs[i]) => e.pairs[i].bad = 0)
+              \* C09: outside the core every pair's output is its closure relation (relbad = -1: not evaluated, nothing claimed;
+              \* Martynov-Sarkisov is the recorded finding and is not used by the tests and drivers)
+              /\ Clause("ClosureRelation", \A i \in 1 .. Len(e.pairs) :
+                           (e.pairs[i].clos \in KnownClos /\ Canon(e.pairs[i].clos) # "MS") => e.pairs[i].relbad <= 0)
 
 TraceInit == l = 1
 TraceNext == TrCost
